@@ -141,6 +141,10 @@ func compileW(w Witness) (*xpath.Expr, error) {
 func runWitness(c *Case, w Witness) (deviates bool, observed string, detail map[string]interface{}) {
 	detail = map[string]interface{}{"expr": w.Expr, "witness_kind": w.Kind}
 	switch w.Kind {
+	case "none":
+		// no pinned input: the defect needs a schedule or an input too large to pin; the entry
+		// records the repair and names the workload family that covers it
+		return false, "not pinned", detail
 	case "reject":
 		e, err := compileW(w)
 		c.Rep.Evals++
